@@ -43,6 +43,20 @@ fn down_events<'a>(cx: &'a Ctx, s: &SubInfo) -> Vec<&'a EdgeEv> {
     cx.probe_edge(s).iter().filter(|e| e.dir == Dir::Down).collect()
 }
 
+/// "completes exactly once": more than one terminating message at the sink is a finding of the operator model too
+fn completed_once(cx: &Ctx, prop: &'static str, sub: &SubInfo, out: &mut Vec<Finding>) {
+    let terms: Vec<&EdgeEv> =
+        down_events(cx, sub).into_iter().filter(|e| matches!(e.msg, M::Terminate | M::Error(_))).collect();
+    if terms.len() > 1 {
+        out.push(finding(
+            prop,
+            format!("{prop}:ended-more-than-once"),
+            format!("the sink received {} terminating messages: {:?}", terms.len(), terms.iter().map(|e| e.msg.short()).collect::<Vec<_>>()),
+            terms[1].start,
+        ));
+    }
+}
+
 fn only_inst<'a>(cx: &'a Ctx, pup: u8, si: usize) -> Option<&'a InstInfo> {
     cx.insts.iter().find(|i| i.pup == pup && i.sub == Some(si))
 }
@@ -448,6 +462,7 @@ fn c08_for(cx: &Ctx, si: usize) -> Vec<Finding> {
         }
     }
     pull_broadcast(cx, "C08", "merge", &ms, sub, &mut out);
+    completed_once(cx, "C08", sub, &mut out);
     // completion: exactly once, inside the completion of the last of all n members
     let all_done = ms.insts.iter().all(|i| {
         i.map_or(false, |i| matches!(&i.ended_at, Some((e, M::Terminate)) if sub.live_at(*e)))
@@ -614,6 +629,7 @@ fn c09_for(cx: &Ctx, si: usize) -> Vec<Finding> {
             }
         }
     }
+    completed_once(cx, "C09", sub, &mut out);
     out
 }
 
@@ -742,6 +758,7 @@ fn c10_for(cx: &Ctx, si: usize) -> Vec<Finding> {
             out.push(finding("C10", "C10:early-completion", "the sink was completed before every member had ended".to_string(), *t));
         }
     }
+    completed_once(cx, "C10", sub, &mut out);
     out
 }
 
@@ -965,6 +982,7 @@ fn c11_for(cx: &Ctx, si: usize) -> Vec<Finding> {
             out.push(finding("C11", "C11:spontaneous-pull", format!("{} has no cause", cx.ix.spans[*p].site.short()), cx.ix.spans[*p].start));
         }
     }
+    completed_once(cx, "C11", sub, &mut out);
     out
 }
 
